@@ -133,6 +133,8 @@ def lower_unit(u, outdir):
     with open(os.path.join(outdir, 'lowering.log'), 'w') as f:
         f.write('\n'.join(L.log) + '\n')
     meta['lowering_log'] = L.log
+    meta['recorders'] = getattr(L, 'recorder_info', {})
+    meta['protos'] = {f.cname: f.proto for f in L.fn_order if getattr(f, 'is_target', False)}
     meta['functions'] = [f.cname for f in L.fn_order]
     return cfile, meta
 
